@@ -21,6 +21,7 @@ RULE = ("(a) exhaustive: every condition tree with <= N connectives (N=2 quick, 
         "(free Cartesian completion), no condition at all, every selection subset and order, selected attribute "
         "expressions; depth<=4; caching on (default) and off; set_of(...) and an([..], ...) spellings; (c) joins written as positional / keyword arguments of a predicate-form term whose class inherits a keyword-only field (Lk(From(links), x, y)); (d) feature-interaction queries (eqlmon/ix.py): a parent, its flattened elements and a further variable, with nested an()/the() sub-queries, concatenate, for_all, predicates and membership atoms on top, evaluated twice, plus every ordered pair of interaction-atom kinds (pairwise coverage); histories as in C01 (repeated evaluation, abandoned-first, an earlier complete evaluation under the other caching switch). Non-trivial: the "
         "oracle result is neither empty nor the whole product; distinct by structural hash of (query, data, config).")
+RULE += " Size cases (every tier, eqlmon/multi.gen_scale_case): joins and self-joins over 35-50 objects a side (more than a thousand candidate rows), triangle joins, and_/or_ with 6-9 operands, IN-lists written out over two same-type variables, 5-6 variables, evaluated 2-3 times."
 LEVEL_TEXT = ("Reference-model monitoring at the API boundary: rows returned by the real evaluation are compared, by object "
               "identity, with the brute-force filter of the Cartesian product (set always; multiset when all variables "
               "are selected). Random workload sharded over 16 processes; node/cache/dedup monitors show which joins, "
